@@ -4,13 +4,17 @@
 //! so the arithmetic at `len == N` (`len + 1`, `start + len`, `N - len`) is reached.  Only operations whose cost does
 //! not grow with the length for such a type are used.  Observable: lengths and Some / None / Err shapes.
 
+/// Half of the address space (2^63 on 64-bit targets) and the square root of its size (2^32 there).
+pub const HALF: usize = (usize::MAX >> 1) + 1;
+pub const SQRT: usize = 1 << (usize::BITS / 2);
+
 use circular_buffer::CircularBuffer;
 use serde::{Deserialize, Serialize};
 
 #[derive(Debug, Clone, Copy, PartialEq, Eq, PartialOrd, Ord, Hash)]
 pub struct Z;
 
-pub const FCAPS: [usize; 7] = [usize::MAX, usize::MAX - 1, (1 << 63) + 1, 1 << 63, (1 << 32) + 1, (1 << 32) - 1, 65537];
+pub const FCAPS: [usize; 7] = [usize::MAX, usize::MAX - 1, HALF + 1, HALF, SQRT + 1, SQRT - 1, 65537];
 
 #[derive(Debug, Clone, Copy, PartialEq, Eq, Hash, Serialize, Deserialize)]
 pub enum FI {
@@ -253,10 +257,10 @@ pub fn run_fcase(c: &FCase) -> Result<bool, String> {
     match c.cap_index {
         0 => run_n::<{ usize::MAX }>(c),
         1 => run_n::<{ usize::MAX - 1 }>(c),
-        2 => run_n::<{ (1 << 63) + 1 }>(c),
-        3 => run_n::<{ 1 << 63 }>(c),
-        4 => run_n::<{ (1 << 32) + 1 }>(c),
-        5 => run_n::<{ (1 << 32) - 1 }>(c),
+        2 => run_n::<{ HALF + 1 }>(c),
+        3 => run_n::<{ HALF }>(c),
+        4 => run_n::<{ SQRT + 1 }>(c),
+        5 => run_n::<{ SQRT - 1 }>(c),
         6 => run_n::<65537>(c),
         k => Err(format!("capacity index {k} not in table")),
     }
